@@ -24,6 +24,7 @@ EXPLANATION = (
     "constraint route), so walks may still repeat a cycle as often as a minimum decomposition needs.  NOT decided: minimality, completeness, validity of the condensation width as a bound, "
     "scale invariance for non-integer weights."
     ' (R10, round 3) as C03.R9 for the cyclic class; the repetition cap of an ignored edge is structural (|E| + sum of the non-ignored flows), never a flow value or w_max.'
+    ' (R10, round 4) cache ownership and purity of the reachability queries the default pruning reads (C17.R1 / R2).'
 )
 DECIDED = ["search protocol on every path", "range reaches the largest attainable optimum", "lower-bound providers and width-call convention",
            "no process exit", "per-edge repetition caps: providers, overwrite discipline, bound and big-M tied to the cap"]
